@@ -98,7 +98,7 @@ type Client struct {
 	Cached bool // marks requests as served from a cache view (informational)
 	// Filter, when set, hides objects for which it returns false (cache label selector).
 	Filter func(c map[string]any) bool
-	// ListHide hides the given keys from List answers only (a lagging informer cache).
+	// ListHide hides the given keys from List and Get answers (a lagging informer cache).
 	ListHide map[Key]bool
 }
 
@@ -218,7 +218,7 @@ func (c *Client) Get(_ context.Context, key client.ObjectKey, obj client.Object,
 	}
 	var res error
 	o := c.S.Objs[k]
-	if (info.Namespaced && k.Namespace == "") || !c.visible(o) {
+	if (info.Namespaced && k.Namespace == "") || !c.visible(o) || c.ListHide[k] {
 		res = apierrors.NewNotFound(gr(k), k.Name)
 	} else {
 		r.Resp = o.Content
